@@ -1,7 +1,69 @@
 (* C14 (concurrent half) — cmap.Map, cmap.Atomic (+ AtomicValue) and slice.Slice are
    linearizable.  Statements only; every proof is [exact <lemma of C14/Lin*.v>]. *)
 From Coq Require Import List ZArith.
-From Kit Require Import C14.LinSpec C14.LinModel C14.LinCheck C14.LinProofs.
+From Kit Require Import C14.LinSpec C14.LinModel C14.LinCheck C14.LinProofs C14.LinSched.
+
+(* cmap.Map.  For EVERY schedule (any list of Invoke / Acquire / Effect / Release / Return
+   events of any number of threads that the lock model allows: read-locked sections may
+   overlap, a write-locked section excludes everything) of the event-system model of map.go,
+   in EVERY state reached: the history of completed calls, together with the calls still in
+   flight (standard completion rule: some of them get a response after everything observed,
+   the others are dropped), is linearizable w.r.t. an ordinary map — some total order of the
+   calls respects real-time precedence and is a legal sequential run from the empty map. *)
+Theorem C14_map_linearizable : forall es s, map_run map_init es = Some s ->
+  forall pend, (forall t i o, pending amap map_op s t i o -> In (t, i, o) pend) ->
+  linearizable_pending map_s0 map_legal (hist s) (clock s) pend.
+Proof. exact map_sched_linearizable. Qed.
+Print Assumptions C14_map_linearizable.
+
+(* ... in particular, whenever no call is in flight, the recorded history itself. *)
+Theorem C14_map_linearizable_quiescent : forall es s, map_run map_init es = Some s ->
+  quiescent amap map_op s -> map_linearizable (hist s).
+Proof. exact map_sched_linearizable_quiescent. Qed.
+Print Assumptions C14_map_linearizable_quiescent.
+
+(* cmap.Atomic and the AtomicValue counters it hands out (each with its own RWMutex;
+   GetOrCreate = read-locked look-up, then on a miss a write-locked re-check/create): the same
+   for every schedule, w.r.t. a map from keys to counter objects.  Methods of a counter can
+   only be invoked on an object that exists (a pointer obtained from the map). *)
+Theorem C14_atomic_linearizable : forall es s, at_run at_init es = Some s ->
+  forall pend, (forall t i o, pending at_state at_op s t i o -> In (t, i, o) pend) ->
+  linearizable_pending at_s0 at_legal (hist s) (clock s) pend.
+Proof. exact at_sched_linearizable. Qed.
+Print Assumptions C14_atomic_linearizable.
+
+Theorem C14_atomic_linearizable_quiescent : forall es s, at_run at_init es = Some s ->
+  quiescent at_state at_op s -> at_linearizable (hist s).
+Proof. exact at_sched_linearizable_quiescent. Qed.
+Print Assumptions C14_atomic_linearizable_quiescent.
+
+(* slice.Slice: the same for every schedule, w.r.t. an append-only sequence (Append returns
+   the new length). *)
+Theorem C14_slice_linearizable : forall es s, sl_run sl_init es = Some s ->
+  forall pend, (forall t i o, pending (list Z) sl_op s t i o -> In (t, i, o) pend) ->
+  linearizable_pending sl_s0 sl_legal (hist s) (clock s) pend.
+Proof. exact sl_sched_linearizable. Qed.
+Print Assumptions C14_slice_linearizable.
+
+Theorem C14_slice_linearizable_quiescent : forall es s, sl_run sl_init es = Some s ->
+  quiescent (list Z) sl_op s -> sl_linearizable (hist s).
+Proof. exact sl_sched_linearizable_quiescent. Qed.
+Print Assumptions C14_slice_linearizable_quiescent.
+
+(* The section structure matters (counter-models, NOT the code): a LoadAndDelete split into a
+   read-locked Load and a separately locked Delete, and a GetOrCreate that does not re-check
+   under the write lock, both have schedules whose history is not linearizable. *)
+Theorem C14_map_split_sections_refuted : exists es s,
+  run amap map_op map_code_split (fun _ _ => true) map_init es = Some s /\
+  ~ map_linearizable (hist s).
+Proof. exact map_split_sections_refuted. Qed.
+Print Assumptions C14_map_split_sections_refuted.
+
+Theorem C14_atomic_nocheck_refuted : exists es s,
+  run at_state at_op at_code_nocheck at_can_invoke at_init es = Some s /\
+  ~ at_linearizable (hist s).
+Proof. exact at_nocheck_refuted. Qed.
+Print Assumptions C14_atomic_nocheck_refuted.
 
 (* The oracle applied to the histories recorded from the Go code is sound: whenever the
    checker accepts a history (of ANY length), some total order of its calls respects real time
